@@ -390,6 +390,11 @@ func (d *Def[C]) Check(t *testing.T) {
 // regression corpus).
 func (d *Def[C]) One(t TB, cas C) {
 	d.P.Eval()
+	if inflight := os.Getenv("VERIF_INFLIGHT"); inflight != "" {
+		rf := ReplayFile{Property: d.P.ID, Test: d.Name, Sig: d.P.ID + "/process-death", Msg: "case in flight when the process died", Case: canon(cas)}
+		b, _ := json.Marshal(rf)
+		_ = os.WriteFile(inflight, b, 0o644)
+	}
 	d.Run(&Ctx{P: d.P, T: t, def: d.Name, cas: cas, Mode: "enum"}, cas)
 }
 
